@@ -55,7 +55,7 @@ class InMemoryMessageBroker(MessageBrokerT):
         for msg in q.processing:
             if msg.key.id_ == key.id_:
                 q.processing.remove(msg)
-                q.simple.put_nowait(msg)
+                q.put_back(msg)
                 break
 
         await asyncio.sleep(0)
@@ -68,6 +68,7 @@ class InMemoryMessageBroker(MessageBrokerT):
         for msg in q.processing:
             if msg.key.id_ == key.id_:
                 q.processing.remove(msg)
+                q.taken_from.pop(key.id_, None)
                 break
 
         await asyncio.sleep(0)
@@ -80,6 +81,7 @@ class InMemoryMessageBroker(MessageBrokerT):
         for msg in q.processing:
             if msg.key.id_ == key.id_:
                 q.processing.remove(msg)
+                q.taken_from.pop(key.id_, None)
                 q.dead.append(msg)
                 break
 
@@ -99,6 +101,7 @@ class InMemoryMessageBroker(MessageBrokerT):
         for msg in q.processing:
             if msg.key.id_ == key.id_:
                 q.processing.remove(msg)
+                q.taken_from.pop(key.id_, None)
                 break
 
         delay: datetime | None = wait_until(params)
